@@ -8,6 +8,7 @@ def check(ctx):
     scaling.nan_safe(ctx, 'C19-R1')
     scaling.inverse_pairs(ctx, 'C19-R2')
     scaling.minrange(ctx, 'C19-R4')
+    scaling.continuity_offset_guard(ctx, 'C19-R5')
     ctx.undecided += ['continuity of step scaling across its steps and the agreement of the inverse bin edges '
                       '(edges_out) with do(edges_in): a consistent off-by-one in both offset computations is invisible '
                       'to the algebraic inverse check', 'that min-max scaling lands in [0, 1] numerically',
